@@ -1,5 +1,7 @@
 import Frp.Model.Frame
 import Frp.Lemmas.Frame
+import Frp.Model.MsgObj
+import Frp.Lemmas.MsgObj
 import Frp.Gen.MsgSchema
 import Frp.Props.C17Golden
 /-
@@ -422,9 +424,8 @@ theorem holdsOn_sound (max : Nat) (inp : Str) (o : Obs) (hb : IsBytes inp)
           exact absurd ⟨t, body, rest, hinp, hk, hl⟩ hno
         · exact ⟨⟨h1, h2⟩, hj⟩
 
-/-- the model's own observable result for an input, given encoding/json's verdict on the body -/
-def modelObs (max : Nat) (jsonOk : Bool) (inp : Str) : Obs :=
-  let r := readMsg max known structOf jsonOk inp
+/-- observable form of a model result -/
+def obsOf (r : Msg × Nat × Nat) : Obs :=
   { out := match r.1 with
       | .msg s => .msg s
       | .nilMsg => .nilMsg
@@ -436,9 +437,15 @@ def modelObs (max : Nat) (jsonOk : Bool) (inp : Str) : Obs :=
       | .errFrame .negLen => .err "neg",
     consumed := r.2.1, bodyReq := r.2.2 }
 
-/-- FULL statement: the (faithful) model of `ReadMsg` satisfies the property on every input. -/
-def ModelHoldsFull : Prop :=
-  ∀ (jsonOk : Bool) (inp : Str), IsBytes inp → Spec maxLen inp (modelObs maxLen jsonOk inp)
+/-- the model's observable result of frp's `msg.ReadMsg` (pkg/msg/ctl.go, current code) for an
+    input, given encoding/json's verdict on the body -/
+def modelObs (max : Nat) (jsonOk : Bool) (inp : Str) : Obs :=
+  obsOf (readMsg max known structOf jsonOk inp)
+
+/-- the same for the vendored golib `MsgCtl.ReadMsg` alone (= frp's `msg.ReadMsg` before the repair
+    of finding C17-null-body) -/
+def modelObsGolib (max : Nat) (jsonOk : Bool) (inp : Str) : Obs :=
+  obsOf (readMsgGolib max known structOf jsonOk inp)
 
 /-- the body of a frame, if the input starts with a well-formed one -/
 def bodyOf (max : Nat) (inp : Str) : Option Str :=
@@ -446,29 +453,33 @@ def bodyOf (max : Nat) (inp : Str) : Option Str :=
   | .ok _ b _ => some b
   | .err _ => none
 
-/-- It does NOT hold: a well-formed frame of a registered type whose body is the JSON literal
-    `null` makes `ReadMsg` return `(nil, nil)` — neither a registered message nor an error.
+/-! ### the decoder before the repair (kept as documentation of finding C17-null-body) -/
+
+def GolibHoldsFull : Prop :=
+  ∀ (jsonOk : Bool) (inp : Str), IsBytes inp → Spec maxLen inp (modelObsGolib maxLen jsonOk inp)
+
+/-- A well-formed frame of a registered type whose body is the JSON literal `null` makes golib's
+    `ReadMsg` return `(nil, nil)` — neither a registered message nor an error.
     Witness: `o` + length 4 + `null`. -/
 def nullFrame : Str := encode 111 [110, 117, 108, 108]
 
-theorem model_null_witness : ¬ Spec maxLen nullFrame (modelObs maxLen true nullFrame) := by
+theorem model_null_witness : ¬ Spec maxLen nullFrame (modelObsGolib maxLen true nullFrame) := by
   rw [← holdsOn_sound maxLen nullFrame _ (by decide +kernel) (by decide)]
   decide +kernel
 
-theorem modelHoldsFull_false : ¬ ModelHoldsFull := by
+theorem golibHoldsFull_false : ¬ GolibHoldsFull := by
   intro h
   exact model_null_witness (h true nullFrame (by decide +kernel))
 
-/-- PARTIAL (the excluded case as an explicit decidable hypothesis): on every input whose frame
-    body is not the literal `null` (or whose body encoding/json rejects), the model of `ReadMsg`
-    satisfies the property. -/
-theorem model_holdsOn_partial (jsonOk : Bool) (inp : Str) (hb : IsBytes inp)
+/-- golib's `ReadMsg` alone satisfies the property on every input whose frame body is not the
+    literal `null` (or whose body encoding/json rejects). -/
+theorem golib_holdsOn_partial (jsonOk : Bool) (inp : Str) (hb : IsBytes inp)
     (hnn : ∀ b, bodyOf maxLen inp = some b → jsonOk = true → isNullLit b = false) :
-    Spec maxLen inp (modelObs maxLen jsonOk inp) := by
+    Spec maxLen inp (modelObsGolib maxLen jsonOk inp) := by
   have hmax : maxLen < 9223372036854775808 := by decide
   rw [← holdsOn_sound maxLen inp _ hb hmax]
   have hbnd := decode_bounded maxLen known inp
-  unfold holdsOn modelObs readMsg
+  unfold holdsOn modelObsGolib obsOf readMsgGolib
   unfold bodyOf at hnn
   cases hres : (decodeFull maxLen known inp).res with
   | err e =>
@@ -492,6 +503,120 @@ theorem model_holdsOn_partial (jsonOk : Bool) (inp : Str) (hb : IsBytes inp)
       obtain ⟨s, hs⟩ := Option.isSome_iff_exists.mp hk
       simp [hn, hs, hbnd.1, hbnd.2]
 
+/-! ### the current decoder (pkg/msg/ctl.go `ReadMsg` with the nil check) -/
+
+/-- on everything but a `null` body the repaired `ReadMsg` is golib's -/
+theorem modelObs_eq_golib (jsonOk : Bool) (inp : Str)
+    (h : (readMsgGolib maxLen known structOf jsonOk inp).1 ≠ .nilMsg) :
+    modelObs maxLen jsonOk inp = modelObsGolib maxLen jsonOk inp := by
+  unfold modelObs modelObsGolib readMsg
+  generalize readMsgGolib maxLen known structOf jsonOk inp = r at h ⊢
+  obtain ⟨m, c, a⟩ := r
+  cases m <;> simp_all
+
+/-- "no message and no error" is never returned -/
+theorem readMsg_never_nil (max : Nat) (jsonOk : Bool) (inp : Str) :
+    (readMsg max known structOf jsonOk inp).1 ≠ .nilMsg := by
+  unfold readMsg
+  generalize readMsgGolib max known structOf jsonOk inp = r
+  obtain ⟨m, c, a⟩ := r
+  cases m <;> simp
+
+/-- FULL statement, current code: for every byte string and either verdict of encoding/json on the
+    body, what `msg.ReadMsg` returns satisfies the property — an ok result is the registered
+    message of a well-formed frame within the bound, consumed exactly; otherwise an error of the
+    right kind; never nil, never more than `max` allocated, nothing past the input consumed. -/
+theorem modelHoldsFull (jsonOk : Bool) (inp : Str) (hb : IsBytes inp) :
+    Spec maxLen inp (modelObs maxLen jsonOk inp) := by
+  have hmax : maxLen < 9223372036854775808 := by decide
+  rw [← holdsOn_sound maxLen inp _ hb hmax]
+  have hbnd := decode_bounded maxLen known inp
+  unfold holdsOn modelObs obsOf readMsg readMsgGolib
+  cases hres : (decodeFull maxLen known inp).res with
+  | err e =>
+    have hdf : ∃ c a, decodeFull maxLen known inp = ⟨.err e, c, a⟩ := by
+      cases hd : decodeFull maxLen known inp with
+      | mk r c a => rw [hd] at hres; simp only at hres; subst hres; exact ⟨c, a, rfl⟩
+    obtain ⟨c, a, hdf⟩ := hdf
+    rw [hdf] at hbnd ⊢
+    simp only at hbnd
+    cases e <;> simp [hbnd.1, hbnd.2]
+  | ok t body rest =>
+    obtain ⟨hk, hl, hinp, hc, ha⟩ := decode_ok_sound maxLen known inp t body rest hb hmax hres
+    have hdf : decodeFull maxLen known inp = ⟨.ok t body rest, 9 + body.length, body.length⟩ := by
+      rw [hinp]; exact decode_encode maxLen known t body rest hk hl hmax
+    rw [hdf] at hbnd ⊢
+    simp only at hbnd
+    cases hj : jsonOk with
+    | false => simp [hbnd.1, hbnd.2]
+    | true =>
+      obtain ⟨s, hs⟩ := Option.isSome_iff_exists.mp hk
+      cases hn : isNullLit body with
+      | true => simp [hn, hbnd.1, hbnd.2]
+      | false => simp [hn, hs, hbnd.1, hbnd.2]
+
+/-- the former witness is now an error that consumes exactly the frame -/
+theorem null_is_error : modelObs maxLen true nullFrame = ⟨.err "json", 13, 4⟩ := by decide +kernel
+
+/-! ## 7. JSON object level: `fromObj (toObj m) = normalize m`, driven by the regenerated table -/
+
+open MsgObj
+
+def structNames : List String := MsgSchema.structs.map (·.1)
+
+/-- Go field type (as printed by the translator) ↦ kind -/
+def kindOf (ty : String) : Kind :=
+  if ty = "string" then .str
+  else if ty = "bool" then .bool
+  else if ty = "int" ∨ ty = "int64" ∨ ty = "uint16" then .int
+  else if ty = "[]string" then .strs
+  else if ty = "map[string]string" then .smap
+  else if ty = "*net.UDPAddr" then .udp
+  else if structNames.contains ty then .sub ty
+  else match ty.toList with
+    | '[' :: ']' :: rest => if structNames.contains (String.ofList rest) then .subs (String.ofList rest) else .unknown
+    | _ => .unknown
+
+/-- the regenerated table as a schema keyed by JSON name (what encoding/json uses) -/
+def schema : Schema :=
+  ⟨MsgSchema.structs.map (fun r => (r.1, r.2.map (fun f => ⟨f.1, Str.ofString f.2.1, f.2.2.2, kindOf f.2.2.1⟩)))⟩
+
+/-- the same table keyed by Go field name (used by the driver to read the harness's reflection dump
+    of a Go value; not part of any theorem) -/
+def schemaGo : Schema :=
+  ⟨MsgSchema.structs.map (fun r => (r.1, r.2.map (fun f => ⟨f.1, Str.ofString f.1, f.2.2.2, kindOf f.2.2.1⟩)))⟩
+
+def hasSub (f : FieldS) : Option String :=
+  match f.kind with
+  | .sub n => some n
+  | .subs n => some n
+  | _ => none
+
+def lvl0 (n : String) : Bool := (schema.fieldsOf n).all (fun f => (hasSub f).isNone)
+def lvl1 (n : String) : Bool := (schema.fieldsOf n).all (fun f => match hasSub f with | some m => lvl0 m | none => true)
+def lvl2 (n : String) : Bool := (schema.fieldsOf n).all (fun f => match hasSub f with | some m => lvl1 m | none => true)
+
+/-- every Go type in the regenerated table is one the object model knows -/
+theorem schema_kinds_known : ∀ r ∈ schema.rows, ∀ f ∈ r.2, f.kind ≠ .unknown := by decide +kernel
+
+/-- struct nesting of every registered message fits the three levels of the model -/
+theorem schema_depth_ok : ∀ p ∈ MsgSchema.registry, lvl2 p.2 = true := by decide +kernel
+
+theorem schema_names_nodup : schema.NamesNodup :=
+  Schema.namesNodup_of_rows schema (by decide +kernel)
+
+/-- Lossless at the object level, for every message value of every struct of the table: decoding
+    the object a value is written as gives the value back, up to `norm2` — which only identifies an
+    empty slice / map with nil under `omitempty` (at every nesting level) and nothing else. -/
+theorem fromObj_toObj (n : String) (m : Struct2) (ht : typed2 schema n m = true) :
+    fromObj2 schema n (toObj2 schema n m) = norm2 schema n m :=
+  roundtrip2 schema schema_names_nodup n m ht
+
+/-- values without empty-but-non-nil collections come back exactly -/
+theorem fromObj_toObj_exact (n : String) (m : Struct2) (ht : typed2 schema n m = true)
+    (hn : norm2 schema n m = m) : fromObj2 schema n (toObj2 schema n m) = m := by
+  rw [fromObj_toObj n m ht, hn]
+
 /-! ## non-vacuity -/
 
 example : known 111 = true ∧ structOf 111 = some "Login" ∧ byteOf "Login" = some 111 := by decide +kernel
@@ -505,12 +630,23 @@ example : decodeFull maxLen known [104, 255, 0, 0, 0, 0, 0, 0, 0, 1] = ⟨.err .
 example : decodeFull maxLen known ([104] ++ be64 10241 ++ [1]) = ⟨.err .maxLen, 9, 0⟩ := by decide +kernel
 example : decodeFull maxLen known ([104] ++ be64 3 ++ [1]) = ⟨.err .unexpectedEOF, 10, 3⟩ := by decide +kernel
 example : decodeFull maxLen known [122, 0] = ⟨.err .msgType, 1, 0⟩ := by decide +kernel
--- the hypotheses of the partial theorem are met by an ordinary frame, and the predicate is not
+-- the predicate is met by an ordinary frame and is not
 -- trivially true: it rejects a run that consumed one byte too many
 example : holdsOn maxLen (encode 104 [123, 125]) ⟨.msg "Ping", 11, 2⟩ = true := by decide +kernel
 example : holdsOn maxLen (encode 104 [123, 125] ++ [7]) ⟨.msg "Ping", 12, 2⟩ = false := by decide +kernel
 example : holdsOn maxLen (encode 104 [123, 125]) ⟨.msg "Pong", 11, 2⟩ = false := by decide +kernel
 example : holdsOn maxLen (encode 104 [123, 125]) ⟨.err "max", 9, 0⟩ = false := by decide +kernel
+
+-- object level: a NatHoleResp with a nested behaviour holding two port ranges (three levels), an
+-- empty-but-non-nil slice that is normalised to nil, and an untouched nil one
+def sampleResp : Struct2 :=
+  [ .strs (some []), .strs none,
+    .sub [ .subs (some [[.int 1, .int 2], [.int 0, .int 65535]]), .int 0, .int 3, .int 0, .str [114], .int 0, .int 0, .int 7 ],
+    .str [], .str [117, 100, 112], .str [115], .str [116] ]
+example : typed2 schema "NatHoleResp" sampleResp = true := by decide +kernel
+example : norm2 schema "NatHoleResp" sampleResp ≠ sampleResp := by decide +kernel
+example : (schema.fieldsOf "NatHoleResp").map (·.goName)
+    = ["AssistedAddrs", "CandidateAddrs", "DetectBehavior", "Error", "Protocol", "Sid", "TransactionID"] := by decide +kernel
 
 end C17
 end Frp
